@@ -190,7 +190,7 @@ func ZZ_C13_FragmentInContext(sv *zzsv.T) {
 			c = zzContexts[sv.Choice("context", len(zzContexts))]
 		} else {
 			// outer levels: statement contexts only
-			c = zzContexts[sv.Choice("outer", sv.Param("ctx.outer", 6, 12))]
+			c = zzContexts[sv.Choice("outer", sv.Param("ctx.outer", 6, 8))]
 		}
 		if c.stmt && !isStmt {
 			text += ";"
